@@ -263,12 +263,12 @@ def _convert_call_to_dict(tree):
     c = _sugar(tree)
     if c is None:
         return []
-    ms = [f for f in _methods(c).values() if not f.name.startswith("visit_") and "ast.Dict" in _calls(f) and len(f.args.args) == 4]
+    ms = [f for f in _methods(c).values() if not f.name.startswith("visit_") and "ast.Dict" in _calls(f) and len(f.args.args) in (4, 5)]
     if ms:
         return ms
     # the binder does not use self: it may live beside the class as a module-level function the class calls
     called = {x for f in _methods(c).values() for x in _calls(f)}
-    return [f for f in _top_funcs(tree) if f.name in called and "ast.Dict" in _calls(f) and len(f.args.args) == 3]
+    return [f for f in _top_funcs(tree) if f.name in called and "ast.Dict" in _calls(f) and len(f.args.args) in (3, 4)]
 
 
 def _cr(tree):
